@@ -27,13 +27,13 @@ The rows in `exempt` are excluded, each with a negation witness below that is re
 real printers by fav/props/c05.py. -/
 
 /-- every Python row outside `exempt .python = [remainder, sign]` denotes its kind -/
-theorem templates_python : ∀ r ∈ pythonKinds, r.1 ∈ exempt .python ∨ rowOK .python r.1 r.2 = true := by decide
+theorem templates_python : ∀ r ∈ pythonKinds, r.1 ∈ exempt .python ∨ rowOK .python r.1 r.2 = true := by decide +kernel
 
 /-- every NumPy row outside `exempt .numpy = [remainder, item]` denotes its kind -/
-theorem templates_numpy : ∀ r ∈ numpyKinds, r.1 ∈ exempt .numpy ∨ rowOK .numpy r.1 r.2 = true := by decide
+theorem templates_numpy : ∀ r ∈ numpyKinds, r.1 ∈ exempt .numpy ∨ rowOK .numpy r.1 r.2 = true := by decide +kernel
 
 /-- every C++ row outside `exempt .cpp = [floor, sign]` denotes its kind -/
-theorem templates_cpp : ∀ r ∈ cppKinds, r.1 ∈ exempt .cpp ∨ rowOK .cpp r.1 r.2 = true := by decide
+theorem templates_cpp : ∀ r ∈ cppKinds, r.1 ∈ exempt .cpp ∨ rowOK .cpp r.1 r.2 = true := by decide +kernel
 
 /-- `numpy item = "{0}[{1}]"` has the right shape; only guardedness of hole 0 is missing -/
 theorem templates_numpy_item_shape : rowShapeOK .numpy "item" (.tmpl "{0}[{1}]") = true := by decide
